@@ -10,9 +10,9 @@ import (
 	"google.golang.org/grpc/status"
 	"pgregory.net/rapid"
 
+	spb "github.com/openconfig/gribi/v1/proto/service"
 	"github.com/openconfig/gribigo/rib"
 	"github.com/openconfig/gribigo/server"
-	spb "github.com/openconfig/gribi/v1/proto/service"
 
 	"verifh/internal/drive"
 	"verifh/internal/ev"
